@@ -142,6 +142,7 @@ class _ParseTreeProcessor(parsimonious.NodeVisitor):
         self._current_line_number = 1  # Lines are numbered from one
         self._comment = ""
         self._comment_is_header = True
+        self._pending_attribute_line_number: typing.Optional[int] = None  # Attribute awaiting its doc comment
         self._strict = bool(strict)
         super().__init__()
 
@@ -155,7 +156,14 @@ class _ParseTreeProcessor(parsimonious.NodeVisitor):
         if self._comment_is_header:
             self._statement_stream_processor.on_header_comment(self._comment)
         else:
-            self._statement_stream_processor.on_attribute_comment(self._comment)
+            pending_line_number, self._pending_attribute_line_number = self._pending_attribute_line_number, None
+            try:
+                self._statement_stream_processor.on_attribute_comment(self._comment)
+            except _error.Error as ex:
+                # The attribute is committed only now, but the error belongs to the line where it was declared.
+                if pending_line_number is not None and not ex.path:
+                    ex.set_error_location_if_unknown(line=pending_line_number)
+                raise
         self._comment_is_header = False
         self._comment = ""
 
@@ -194,18 +202,21 @@ class _ParseTreeProcessor(parsimonious.NodeVisitor):
         assert isinstance(exp, _expression.Any)
         self._flush_comment()
         self._statement_stream_processor.on_constant(constant_type, name, exp)
+        self._pending_attribute_line_number = self.current_line_number
 
     def visit_statement_field(self, _n: _Node, children: _Children) -> None:
         field_type, _space, name = children
         assert isinstance(field_type, _serializable.SerializableType) and isinstance(name, str) and name
         self._flush_comment()
         self._statement_stream_processor.on_field(field_type, name)
+        self._pending_attribute_line_number = self.current_line_number
 
     def visit_statement_padding_field(self, _n: _Node, children: _Children) -> None:
         void_type = children[0]
         assert isinstance(void_type, _serializable.VoidType)
         self._flush_comment()
         self._statement_stream_processor.on_padding_field(void_type)
+        self._pending_attribute_line_number = self.current_line_number
 
     def visit_statement_service_response_marker(self, _n: _Node, _c: _Children) -> None:
         self._flush_comment()
